@@ -10,6 +10,64 @@ MODULES = ["contracts.rows", "contracts.externals", "contracts.balancing", "cont
 _cache = {}
 
 
+def process_reaction_reads():
+    """read-set of CheckCarbonBalance.process_reaction, from the real source: the row is used only as `reaction.copy()`, the copy only
+    through copy[rsmi_col] (read), copy['carbon_balance_check'] = ... (write) and `return copy`.  This is what justifies the axiom
+    'carbon-label-functional' (the label is a function of the reaction string alone).  Returns (ok, list of offending uses)."""
+    import ast
+    import os
+    from checks.common import REPO
+    src = open(os.path.join(REPO, "synrbl/SynProcessor/check_carbon_balance.py")).read()
+    fn = None
+    for n in ast.walk(ast.parse(src)):
+        if isinstance(n, ast.FunctionDef) and n.name == "process_reaction":
+            fn = n
+    if fn is None:
+        return False, ["process_reaction not found"]
+    parents = {}
+    for n in ast.walk(fn):
+        for ch in ast.iter_child_nodes(n):
+            parents[id(ch)] = n
+    bad = []
+    copies = set()
+    for n in ast.walk(fn):
+        if isinstance(n, ast.Assign) and isinstance(n.value, ast.Call) and isinstance(n.value.func, ast.Attribute) and \
+                n.value.func.attr == "copy" and isinstance(n.value.func.value, ast.Name) and n.value.func.value.id == "reaction" and \
+                len(n.targets) == 1 and isinstance(n.targets[0], ast.Name):
+            copies.add(n.targets[0].id)
+    for n in ast.walk(fn):
+        if not isinstance(n, ast.Name) or n.id not in copies | {"reaction"}:
+            continue
+        par = parents.get(id(n))
+        if n.id == "reaction":
+            ok = isinstance(par, ast.Attribute) and par.attr == "copy" and isinstance(parents.get(id(par)), ast.Call)
+        elif isinstance(n.ctx, ast.Store):
+            ok = isinstance(par, ast.Assign)
+        elif isinstance(par, ast.Return):
+            ok = True
+        elif isinstance(par, ast.Subscript) and par.value is n:
+            if isinstance(par.ctx, ast.Store):
+                ok = isinstance(par.slice, ast.Constant) and par.slice.value == "carbon_balance_check"
+            else:
+                ok = isinstance(par.slice, ast.Name) and par.slice.id == "rsmi_col"
+        else:
+            ok = False
+        if not ok:
+            bad.append("line %d: %s" % (n.lineno, ast.unparse(par) if par is not None else n.id))
+    return (not bad and bool(copies)), bad
+
+
+def deductive(run):
+    """the deductive part shared by the pipeline-level properties, plus the syntactic obligation behind the scoped axiom"""
+    res = run.deductive(MODULES)
+    if any(f["function"] == "CheckCarbonBalance.check_carbon_balance" for f in run.functions):
+        ok, bad = process_reaction_reads()
+        run.data_obligation("frame:process_reaction-reads", ok,
+                            "process_reaction reads its row only through row[rsmi_col] (so its label is a function of the reaction string: "
+                            "axiom carbon-label-functional)%s" % ("" if ok else "; offending uses: %s" % bad))
+    return res
+
+
 def inputs(run, n_valid_quick=60, n_valid_thorough=1500):
     n = n_valid_quick if run.tier == "quick" else n_valid_thorough
     return list(P.CRAFTED) + P.validation_reactions(n, seed=run.seed)
